@@ -1,4 +1,5 @@
 import XdistProofs.Sys.Inv2
+import XdistProofs.Sys.LedgerDef
 import XdistModel.Driver.Sys
 /-!
   `inv?` for the `sys` driver: evaluates the (decidable) system invariant of `Sys/Inv.lean` on the current state of a
@@ -26,7 +27,8 @@ def invLine (st : St) : String :=
     | none => "inv=-"
     | some ls =>
       if decide (Xdist.Sys.Inv ls) then
-        (if decide (Xdist.Sys.Inv2 ls) then "inv=1"
+        (if decide (Xdist.Sys.Inv2 ls) then
+          (if decide (Xdist.Sys.Inv3 ls) then "inv=1" else "inv=0 ledger")
          else
           let badCtl := if decide (Xdist.Sys.CtlInv2 ls.ctl) then "" else " ctl2"
           let bad := ls.wk.zipIdx.filter (fun p => !decide (Xdist.Sys.WkInv2 ls.ctl p.2 p.1))
